@@ -21,6 +21,11 @@ class C01(ProgramProperty):
     assumptions = ["PyTrie's StringTrie.longest_prefix_item returns the longest key that is a prefix (modelled by "
                    "contract `Conv.lpi`; exercised on every case)"]
 
+    def exhaustive(self, tier):
+        from .. import smallscope
+
+        return smallscope.run(self.id, tier)
+
     def budget(self, tier):
         return 3000 if tier == "quick" else 120000
 
